@@ -57,7 +57,8 @@ def gen_cases(ctx):
         imax[d] = hi
     yield {"kind": "plain" if i % 3 else "constrained", "n": n, "units": units, "imin": imin, "imax": imax,
            "bounds_mode": bm, "use_bias": bool(rng.rand() < .6), "none_lists": bool(rng.rand() < .3),
-           "seed": int(rng.randint(2**31 - 1)), "exec": modes.pick(rng, (0.5, 0.2, 0.3))}
+           "seed": int(rng.randint(2**31 - 1)), "exec": modes.pick(rng, (0.5, 0.2, 0.3)),
+           "dtype": "float64" if rng.rand() < .15 else "float32"}
 
 
 def _ref(K, b, x, imin, imax, units):
@@ -112,7 +113,9 @@ def run_case(ctx, case):
   layer = tfl.layers.Linear(
       num_input_dims=n, units=units, use_bias=case["use_bias"],
       input_min=(None if (all_none_min and not case["none_lists"]) else imin),
-      input_max=(None if (all_none_max and not case["none_lists"]) else imax), **kw)
+      input_max=(None if (all_none_max and not case["none_lists"]) else imax),
+      **dict(kw, **({} if case.get("dtype", "float32") == "float32" else {"dtype": case["dtype"]})))
+  ctx.cls("dtype:" + case.get("dtype", "float32"))
   B = 12
   shape = (B, n) if units == 1 else (B, units, n)
   x = rng.normal(size=shape) * 3
@@ -127,7 +130,7 @@ def run_case(ctx, case):
       flat[3, d] = imax[d] + float(rng.choice([1e-3, 5.0, 1e4]))
     if imin[d] is not None and imax[d] is not None:
       flat[4, d] = float(rng.choice([-1e30, 1e30]))
-  x = flat.reshape(shape).astype(np.float32)
+  x = flat.reshape(shape).astype(np.float32).astype(case.get("dtype", "float32"))
   layer(tf.constant(x))
   K = (rng.normal(size=(n, units)) * np.array([1., 10., .1])[:units]).astype(np.float32)
   if rng.rand() < .15:
@@ -165,7 +168,7 @@ def run_case(ctx, case):
       q = p.copy()
       a_, b_ = np.sort(rng.normal(size=2) * 4)
       p[..., d], q[..., d] = a_, b_
-      yy = layer(tf.constant(np.concatenate([p, q]).astype(np.float32))).numpy()
+      yy = layer(tf.constant(np.concatenate([p, q]).astype(np.float32).astype(x.dtype))).numpy()
       dy = mono[d] * (yy[1] - yy[0])
       ctx.check("consequence/monotone-pairs", bool(np.all(dy >= -tolc)),
                 "constrained weights but output not monotone in input %d (direction %d): %s" % (d, mono[d], dy.tolist()),
@@ -190,13 +193,13 @@ def run_case(ctx, case):
           pd, pw = base.copy(), base.copy()
           pd[..., dom] = imax[dom]
           pw[..., weak] = imax[weak]
-        yy = layer(tf.constant(np.concatenate([base, pd, pw]).astype(np.float32))).numpy()
+        yy = layer(tf.constant(np.concatenate([base, pd, pw]).astype(np.float32).astype(x.dtype))).numpy()
         gain_d, gain_w = yy[1] - yy[0], yy[2] - yy[0]
         ctx.check("consequence/dominance", bool(np.all(gain_d - gain_w >= -tolc)),
                   "%s (%d over %d): dominant gain %s < weak gain %s" % (key, dom, weak, gain_d.tolist(), gain_w.tolist()),
                   info={"pair": [dom, weak], "kind": key})
     if kw.get("normalization_order") == 1 and float(np.abs(K).max()) > 1e-6:
-      xs = rng.normal(size=shape).astype(np.float32) * 3
+      xs = (rng.normal(size=shape).astype(np.float32) * 3).astype(x.dtype)
       ys = modes.call(tf, ex, layer, tf.constant(xs)).numpy().astype(np.float64)
       lo = np.array([v if v is not None else -np.inf for v in imin])
       hi = np.array([v if v is not None else np.inf for v in imax])
